@@ -616,6 +616,44 @@ def loopN : Nat → List Char → List Arg → List Char → Int → List NStore
 def printfN (format : List Char) (args : List Arg) : OutcomeN :=
   loopN (format.length + 1) format args [] 0 []
 
+/-- every value of type `int` that print_i computes on the way — the operands and
+results of its additions and subtractions and `pc` after each `pc +=` — in the
+order of the C text (same prefix and digits as `printI`); for the range theorem
+`print_i_ints_in_range` -/
+def printIInts (u : BitVec 64) (isSigned : Bool) (width minLen : Int) (ops : Ops) (base : Nat) : List Int :=
+  let neg := isSigned && u.msb
+  let u := if neg then -u else u
+  let pfx : List Char :=
+    if neg then ['-']
+    else if isSigned && ops.sign then ['+']
+    else if isSigned && ops.space then [' ']
+    else if base = 8 && ops.spec && (u ≠ 0 || (minLen = 0 && ops.prec)) then ['0']
+    else if base = 16 && ops.spec && (u ≠ 0 || ops.ptr) then (if ops.upper then ['0', 'X'] else ['0', 'x'])
+    else []
+  let prefixLen : Int := pfx.length
+  let letterBase : Nat := if ops.upper then 65 else 97
+  let digits? : Option (List Char) :=
+    if u ≠ 0 || minLen ≠ 0 || !ops.prec then digitLoop base letterBase (PRINT_I_BUFF_SZ - 1) u.toNat []
+    else some []
+  match digits? with
+  | none => []
+  | some digits =>
+    let len : Int := digits.length
+    -- (len < min_len ? min_len + (base == 8 ? 0 : prefix_len) : … ? width : 0)
+    let t1 : Int :=
+      if len < minLen then minLen + (if base = 8 then 0 else prefixLen)
+      else if ops.zero && !(ops.left || ops.prec) then width else 0
+    -- … - len - prefix_len;  MAX(zero_count, 0)
+    let zc0 := t1 - len - prefixLen
+    let zeroCount := max zc0 0
+    -- width - len - prefix_len - zero_count;  MAX(space_count, 0)
+    let sc0 := width - len - prefixLen - zeroCount
+    let spaceCount := max sc0 0
+    let pc1 : Int := if !ops.left then 0 + spaceCount else 0
+    [prefixLen, len, t1, t1 - len, zc0, zeroCount, width - len, width - len - prefixLen, sc0, spaceCount,
+     pc1, pc1 + prefixLen, pc1 + prefixLen + zeroCount, pc1 + prefixLen + zeroCount + len,
+     pc1 + prefixLen + zeroCount + len + (if !ops.left then 0 else spaceCount)]
+
 /-- no directive met on the way makes the C code leave the range of `int` in
 `atoi` or in `width = -width` (follows the passes of `loop`) -/
 def guardFree : Nat → List Char → List Arg → Bool
